@@ -1,19 +1,21 @@
 CHECK = dict(
     level="exploration",
-    level_text="Generated-input search: rule lists rendered from a rule AST with a known meaning (block, allow, $dnstype, $dnsrewrite to IP/CNAME/rcode, hosts-style, bare host) are assigned to the custom / shared (ordered) / blocked-service / dangerous / adult / safe-search / newly-registered slots; the real composite filter (and, in the second unit, the real filter storage behind the real rate-limit + main middleware with a scripted marker-carrying upstream) is compared with a reference evaluator of the documented precedence and with a shape table of the five blocked-answer shapes. Held on N generated cases is evidence, not proof.",
+    level_text="Generated-input search: rule lists rendered from a rule AST with a known meaning (block, allow, $dnstype, $dnsrewrite to IP/CNAME/rcode, hosts-style, bare host) are assigned to the custom / shared (ordered) / blocked-service / dangerous / adult / safe-search / newly-registered slots; the real composite filter (and, in the second unit, the real filter storage behind the real rate-limit + main middleware with a scripted marker-carrying upstream) is compared with a reference evaluator of the documented precedence and with a shape table of the five blocked-answer shapes. Requests on one stack form near-miss chains (only the requester / qtype / one label changed, or nothing) and a sampled round of 2-4 requests in flight at once (also under -race). Held on N generated cases is evidence, not proof.",
     level_note="Trusts urlfilter's matching of the restricted grammar (cross-checked by three metamorphic relations that do not use the reference matcher), miekg/dns, and the hash-prefix matcher (C11). Rule syntax outside the grammar ($important, $client, $denyallow, $badfilter, regex), parental pause schedules and the debug (CHAOS) path are not generated.",
     technique="property-based testing (rapid): rule-AST grammar x slot assignment x blocking mode x requester kind vs reference evaluator (set-valued where the statement leaves freedom), shape table, upstream-marker leak detector, metamorphic relations",
     assumptions=[
         "urlfilter's matching of ||D^, @@||D^, |D^, $dnstype, hosts-style and bare-host rules is trusted; the composition on top of it is what is decided",
         "the filtering request carries the lower-cased host without the trailing dot, as ratelimitmw.newRequestInfo produces it",
-        "where several equally ranked rules match (several block rules; a custom and a shared allow rule; several rewrite rules of one list; verdicts on several records of one answer) every one of them is accepted as the deciding one",
+        "where several equally ranked rules match (several network block rules, or several hosts rules when no network block rule matches; a custom and a shared allow rule; a CNAME and an rcode rewrite of one list; verdicts on several records of one answer) every one of them is accepted as the deciding one; pinned from the doc comments: network rules before hosts rules, CNAME/rcode rewrites before address rewrites of the same list",
+        "a bare IPv4 address line is a network (substring) rule for urlfilter, not a hosts rule; the reference treats it so",
     ],
     units=[
         dict(name="composite", dir="internal/filter/internal/composite", src="C02/composite", runs=[
-            dict(name="verdict", run="^TestVerifC02Verdict$", quick=10000, thorough=300000, shards_quick=2, shards_thorough=8),
+            dict(name="verdict", run="^TestVerifC02Verdict$", quick=6000, thorough=96000, shards_quick=2, shards_thorough=8),
         ]),
         dict(name="mainmw", dir="internal/dnssvc/internal/mainmw", src="C02/mainmw", runs=[
-            dict(name="shape", run="^TestVerifC02Shape$", quick=8000, thorough=240000, shards_quick=2, shards_thorough=8),
+            dict(name="shape", run="^TestVerifC02Shape$", quick=4000, thorough=80000, shards_quick=2, shards_thorough=8),
+            dict(name="shape-race", run="^TestVerifC02Shape$", quick=300, thorough=8000, shards_thorough=4, race=True),
         ]),
     ],
 )
